@@ -1195,6 +1195,7 @@ var c02ShapeNames = []string{"swap", "chain", "chain-new", "cycle3", "fanout-kee
 
 func runC02(c *Ctx) error {
 	r := c.Rng.Fork()
+	fsr := c.Rng.Fork()
 	idx := 0
 	var specs []c02Spec
 	add := func(sp c02Spec) error { specs = append(specs, sp); return nil }
@@ -1304,5 +1305,6 @@ func runC02(c *Ctx) error {
 			c.Out.Emit(cs)
 		}
 	}
-	return nil
+	// last: the filesystem model itself against the real filesystem
+	return runC02FS(c, fsr)
 }
